@@ -17,6 +17,7 @@ import (
 	"fmt"
 	"hash/fnv"
 	"os"
+	"runtime/debug"
 	"sort"
 	"sync"
 	"testing"
@@ -84,6 +85,13 @@ type c20Ref struct {
 	part   map[c20Pair]int
 }
 
+var c20RepClass = func() (out [10]string) {
+	for i := range out {
+		out[i] = fmt.Sprintf("replicas:%d", i)
+	}
+	return
+}()
+
 func c20Expected(r, n int) int {
 	if r < 1 {
 		r = 1
@@ -147,9 +155,11 @@ func c20Equal(a, b []string) bool {
 func c20Table(x *c20Ctx, c *cluster, build *c20Ref) bool {
 	ok := true
 	n := len(c.nodes)
+	evals := 0
+	defer func() { x.r.Eval(evals) }()
 	for rep := 0; rep <= 9 && ok; rep++ {
 		c.ReplicaN = rep
-		x.r.Cover(fmt.Sprintf("replicas:%d", rep))
+		x.r.Cover(c20RepClass[rep])
 		for p := 0; p < defaultPartitionN; p++ {
 			var got []*Node
 			if x.r.Guard(func() string {
@@ -160,7 +170,7 @@ func c20Table(x *c20Ctx, c *cluster, build *c20Ref) bool {
 				return false
 			}
 			ids := c20SortedIDs(got)
-			x.r.Eval(1)
+			evals++
 			// cardinality, distinctness, membership: checked on every cluster
 			want := c20Expected(rep, len(x.ref.ids))
 			bad := ""
@@ -184,7 +194,7 @@ func c20Table(x *c20Ctx, c *cluster, build *c20Ref) bool {
 				build.owners[rep][p] = ids
 				continue
 			}
-			x.r.Eval(1)
+			evals++
 			if !c20Equal(ids, x.ref.owners[rep][p]) {
 				x.fail("partitionNodes", rep, fmt.Sprintf("partition %d: owners %v differ from owners %v computed by the cluster built in sorted order (node list here: %v)",
 					p, ids, x.ref.owners[rep][p], vcNodeIDs(c.nodes)))
@@ -218,12 +228,14 @@ func c20Battery(x *c20Ctx, c *cluster, rep int, rng *vk.Rand) {
 		}
 	}
 	partsSeen := map[int]bool{}
+	evals := 0
+	defer func() { r.Eval(evals) }()
 	for _, idx := range c20Indexes {
 		shards := c20Pairs()[idx]
 		ownedBy := map[string][]uint64{}
 		for _, s := range shards {
 			p := c.partition(idx, s)
-			r.Eval(1)
+			evals += 1
 			if want, ok := x.ref.part[c20Pair{idx, s}]; ok && want != p || p < 0 || p >= defaultPartitionN {
 				fail("partition", fmt.Sprintf("partition(%q,%d)=%d here, %d on the reference cluster", idx, s, p, want))
 				continue
@@ -234,7 +246,7 @@ func c20Battery(x *c20Ctx, c *cluster, rep int, rng *vk.Rand) {
 				ownedBy[o] = append(ownedBy[o], s)
 			}
 			// shardNodes / ShardNodes / API.ShardNodes
-			r.Eval(3)
+			evals += 3
 			if got := c20SortedIDs(c.shardNodes(idx, s)); !c20Equal(got, owners) {
 				fail("shardNodes", fmt.Sprintf("shardNodes(%q,%d)=%v want %v", idx, s, got, owners))
 			}
@@ -253,7 +265,7 @@ func c20Battery(x *c20Ctx, c *cluster, rep int, rng *vk.Rand) {
 			for _, node := range c.nodes {
 				m := node.ID
 				want := vcContains(owners, m)
-				r.Eval(2)
+				evals += 2
 				if got := c.ownsShard(m, idx, s); got != want {
 					fail("ownsShard", fmt.Sprintf("ownsShard(%q,%q,%d)=%v but owners are %v", m, idx, s, got, owners))
 				}
@@ -263,7 +275,7 @@ func c20Battery(x *c20Ctx, c *cluster, rep int, rng *vk.Rand) {
 					fail("validateShardOwnership", fmt.Sprintf("validateShardOwnership(%q,%d) on node %q = %v but owners are %v", idx, s, m, err, owners))
 				}
 			}
-			r.Eval(1)
+			evals += 1
 			if c.ownsShard("\x01not-a-member", idx, s) {
 				fail("ownsShard", fmt.Sprintf("ownsShard(non-member,%q,%d)=true", idx, s))
 			}
@@ -273,7 +285,7 @@ func c20Battery(x *c20Ctx, c *cluster, rep int, rng *vk.Rand) {
 		for _, node := range c.nodes {
 			got := c.containsShards(idx, avail, node)
 			want := ownedBy[node.ID]
-			r.Eval(1)
+			evals += 1
 			if !vk.EqualU64(got, want) {
 				fail("containsShards", fmt.Sprintf("containsShards(%q, node %q): %s; got %s want %s", idx, node.ID, vk.DiffU64(got, want), vk.Brief(got), vk.Brief(want)))
 			}
@@ -300,7 +312,7 @@ func c20Battery(x *c20Ctx, c *cluster, rep int, rng *vk.Rand) {
 			avail := vcNodeIDs(nodes)
 			in := append([]uint64(nil), shards...)
 			m, err := ex.shardsByNode(nodes, idx, in)
-			r.Eval(1)
+			evals += 1
 			wantErr := false
 			for _, s := range shards {
 				any := false
@@ -328,7 +340,7 @@ func c20Battery(x *c20Ctx, c *cluster, rep int, rng *vk.Rand) {
 				for _, s := range ss {
 					count[s]++
 					owners := x.ref.owners[rep][x.ref.part[c20Pair{idx, s}]]
-					r.Eval(1)
+					evals += 1
 					if !vcContains(owners, node.ID) || !vcContains(avail, node.ID) {
 						fail("shardsByNode", fmt.Sprintf("shardsByNode(nodes=%v) gives shard %d of %q to %q; owners are %v", avail, s, idx, node.ID, owners))
 					}
@@ -350,7 +362,7 @@ func c20Battery(x *c20Ctx, c *cluster, rep int, rng *vk.Rand) {
 }
 
 // c20Build drives the real membership code. order holds the join order (IDs).
-func c20Build(via string, order []string, self string, single bool, rng *vk.Rand) (*cluster, error) {
+func c20Build(via string, order []string, self string, single bool, rng *vk.Rand, scratch string) (*cluster, error) {
 	c := newCluster()
 	switch via {
 	case "basic":
@@ -359,7 +371,7 @@ func c20Build(via string, order []string, self string, single bool, rng *vk.Rand
 		}
 	case "addNode":
 		c.Topology = newTopology()
-		c.Path = vcScratch("c20")
+		c.Path = scratch
 		for _, id := range order {
 			if err := c.addNode(vcNode(id)); err != nil {
 				return nil, err
@@ -367,7 +379,7 @@ func c20Build(via string, order []string, self string, single bool, rng *vk.Rand
 		}
 	case "nodeJoin": // coordinator's perspective: first of the order is the coordinator
 		c.Topology = newTopology()
-		c.Path = vcScratch("c20")
+		c.Path = scratch
 		c.holder = vcSharedHolder()
 		c.broadcaster = vcNopBroadcaster{}
 		c.Node = vcNode(order[0])
@@ -384,7 +396,7 @@ func c20Build(via string, order []string, self string, single bool, rng *vk.Rand
 		}
 	case "merge": // follower's perspective: statuses from a coordinator arrive in join order
 		c.Topology = newTopology()
-		c.Path = vcScratch("c20")
+		c.Path = scratch
 		c.holder = vcSharedHolder()
 		c.broadcaster = vcNopBroadcaster{}
 		c.Node = vcNode(self)
@@ -443,15 +455,14 @@ func c20Build(via string, order []string, self string, single bool, rng *vk.Rand
 			}
 		}
 	}
-	if c.Path != "" {
-		os.RemoveAll(c.Path)
-	}
 	return c, nil
 }
 
 func TestVerifC20(t *testing.T) {
 	r := vk.Start(t, "C20")
 	defer r.Finish()
+	// the harness allocates many tiny slices; collect less often (no effect on verdicts)
+	defer debug.SetGCPercent(debug.SetGCPercent(800))
 
 	allOrdersMax, mergeAllMax, sampleOrders := 5, 4, 40
 	if r.Thorough() {
@@ -474,9 +485,18 @@ func TestVerifC20(t *testing.T) {
 	}
 	r.Expect("pairs-cover-all-256-partitions", "merge-from-every-node")
 
-	n := r.N(64, 2600)
-	r.Cases("idset", n, func(i int, id string, rng *vk.Rand) {
-		size := 1 + (i*r.NWorkers+r.Worker)%8
+	// cases per ID-set size (quick, thorough); the cost per case grows with n!
+	counts := map[int][2]int{1: {8, 300}, 2: {8, 300}, 3: {8, 300}, 4: {8, 400}, 5: {8, 300}, 6: {8, 120}, 7: {8, 80}, 8: {8, 80}}
+	for size := 1; size <= 8; size++ {
+		size := size
+		r.Cases(fmt.Sprintf("idset%d", size), r.N(counts[size][0], counts[size][1]), func(i int, id string, rng *vk.Rand) {
+			c20IDSet(r, id, rng, size, allOrdersMax, mergeAllMax, sampleOrders)
+		})
+	}
+}
+
+func c20IDSet(r *vk.Run, id string, rng *vk.Rand, size, allOrdersMax, mergeAllMax, sampleOrders int) {
+	{
 		ids := vcGenIDs(rng, size)
 		sorted := vcSortedCopy(ids)
 		r.Cover(fmt.Sprintf("size:%d", size))
@@ -484,7 +504,9 @@ func TestVerifC20(t *testing.T) {
 		// reference: the cluster built in sorted order
 		ref := &c20Ref{ids: sorted, part: map[c20Pair]int{}}
 		x := &c20Ctx{r: r, id: id, ref: ref, via: "basic", ord: sorted}
-		canon, _ := c20Build("basic", sorted, "", false, rng)
+		scratch := vcScratch("c20")
+		defer os.RemoveAll(scratch)
+		canon, _ := c20Build("basic", sorted, "", false, rng, scratch)
 		if !c20Table(x, canon, ref) {
 			return
 		}
@@ -529,7 +551,7 @@ func TestVerifC20(t *testing.T) {
 				var err error
 				if r.Guard(func() string { return fmt.Sprintf("panic-build:%s:n=%d", label, size) }, id, func() interface{} {
 					return c20Case{IDs: sorted, Order: ord, Via: label, Self: self}
-				}, func() { c, err = c20Build(via, ord, self, single, rng) }) {
+				}, func() { c, err = c20Build(via, ord, self, single, rng, scratch) }) {
 					return
 				}
 				if err != nil {
@@ -576,5 +598,5 @@ func TestVerifC20(t *testing.T) {
 		if len(mergedFrom) == size {
 			r.Cover("merge-from-every-node")
 		}
-	})
+	}
 }
